@@ -415,6 +415,23 @@ func reflectModels() map[string]modelFn {
 		}
 		return RV{T: fl.Type(), V: copyVal(rv.V.(Struct)[i]), RO: ro}
 	})
+	v("FieldByIndex", func(ex *Exec, rv RV, a []Val) Val {
+		sl, _ := a[0].(Slice)
+		cur := rv
+		for _, e := range sl.elems() {
+			if cur.kind() == kPointer {
+				cur = ex.rvElem(cur)
+				if cur.T == nil {
+					ex.rpanic("reflect: indirection through nil pointer to embedded struct")
+				}
+			}
+			if cur.kind() != kStruct {
+				ex.rpanic("reflect: call of reflect.Value.FieldByIndex on %s Value", valueKindName(cur))
+			}
+			cur = models["(reflect.Value).Field"](ex, []Val{cur, e}).(RV)
+		}
+		return cur
+	})
 	v("NumField", func(ex *Exec, rv RV, a []Val) Val {
 		if rv.kind() != kStruct {
 			ex.rpanic("reflect: call of reflect.Value.NumField on %s Value", valueKindName(rv))
@@ -612,6 +629,39 @@ func (ex *Exec) valComparable(t types.Type, v Val) bool {
 func isIfaceType(t types.Type) bool {
 	_, ok := t.Underlying().(*types.Interface)
 	return ok
+}
+
+// structField builds a reflect.StructField value (field order taken from the loaded reflect package).
+func (ex *Exec) structField(f *types.Var, idx []int) Val {
+	rp := ex.w.prog.ImportedPackage("reflect")
+	st := rp.Type("StructField").Type().Underlying().(*types.Struct)
+	out := make(Struct, st.NumFields())
+	for i := 0; i < st.NumFields(); i++ {
+		fl := st.Field(i)
+		out[i] = ex.zero(fl.Type())
+		if f == nil {
+			continue
+		}
+		switch fl.Name() {
+		case "Name":
+			out[i] = cstr(f.Name())
+		case "PkgPath":
+			if !f.Exported() && f.Pkg() != nil {
+				out[i] = cstr(f.Pkg().Path())
+			}
+		case "Type":
+			out[i] = ex.rtypeVal(f.Type())
+		case "Index":
+			vals := make([]Val, len(idx))
+			for k, x := range idx {
+				vals[k] = goInt(x)
+			}
+			out[i] = newSlice(vals)
+		case "Anonymous":
+			out[i] = Bool{C: f.Embedded()}
+		}
+	}
+	return out
 }
 
 func valueKindName(rv RV) string {
@@ -901,6 +951,30 @@ func (ex *Exec) rtypeMethod(rt RT, name string, args []Val) Val {
 			return goInt(u.NumFields())
 		}
 		ex.rpanic("reflect: NumField of non-struct type %s", typeString(t))
+	case "FieldByName":
+		u, ok := t.Underlying().(*types.Struct)
+		if !ok {
+			ex.rpanic("reflect: FieldByName of non-struct type %s", typeString(t))
+		}
+		name, okn := args[0].(Str).conc()
+		if !okn {
+			unsupported("Type.FieldByName with a symbolic name")
+		}
+		idx, f := findField(u, name)
+		if f == nil {
+			return Tuple{ex.structField(nil, nil), Bool{C: false}}
+		}
+		return Tuple{ex.structField(f, idx), Bool{C: true}}
+	case "Field":
+		u, ok := t.Underlying().(*types.Struct)
+		if !ok {
+			ex.rpanic("reflect: Field of non-struct type %s", typeString(t))
+		}
+		i := ex.concInt(args[0], "Type.Field index")
+		if i < 0 || i >= u.NumFields() {
+			ex.rpanic("reflect: Field index out of bounds")
+		}
+		return ex.structField(u.Field(i), []int{i})
 	case "NumMethod":
 		ms := ex.w.prog.MethodSets.MethodSet(t)
 		n := 0
